@@ -15,7 +15,7 @@ SHARDS = {"quick": 4, "thorough": 16}
 BUDGET = {"quick": 22, "thorough": 240}
 MIN_CASES = {"quick": 8000, "thorough": 200000}
 EXHAUSTIVE_CLAIM = True
-RULE = ("irrelevance classes: base URLs from a grid (9 host classes x 12 path shapes x 8 query shapes x 4 fragment shapes) and their variants under the documented-irrelevant "
+RULE = ("irrelevance classes: base URLs from a grid (9 host classes x 12 path shapes x 9 query shapes x 4 fragment shapes) and their variants under the documented-irrelevant "
         "transformations - scheme http/https/absent/'//', userinfo added or altered, one of www./www2./m./mobile./amp./amp- prepended, explicit default port, host letter case, trailing "
         "slash on a non-root path, trailing index.html|index.php|index|default.aspx|default.htm, non-routing fragment, a tracking/session/AMP item (documented keys only) inserted at EVERY "
         "position, EVERY permutation of up to 4 query items, '&amp;' / '&amp%3B' for '&', escape spelling of safe characters in path and query, whitespace wrappers and raw control "
@@ -25,7 +25,7 @@ ASSUMPTIONS = ["markers are never stacked on a base that already carries one (am
                "tracking keys from ural's documented list only; tracking values never contain '&' or '#'", "escape toggles restricted to characters safe to appear raw (C02's rule)",
                "AMP path markers are not part of this property's list (C05 owns them)", "with platform_aware=True only non-platform hosts and transformations that keep the platform"]
 FLOORS = ["class-compared", "T-scheme", "T-userinfo", "T-subdomain", "T-default-port", "T-host-case", "T-trailing-slash", "T-index", "T-fragment", "T-tracking", "T-permute",
-          "T-amp-entity", "T-escape", "T-wrap", "T-controls", "redirect-law-checked", "opt-quoted", "opt-platform_aware", "tracking-every-position", "permutations-all"]
+          "T-amp-entity", "T-escape", "T-wrap", "T-controls", "stacked-markers", "redirect-law-checked", "opt-quoted", "opt-platform_aware", "tracking-every-position", "permutations-all"]
 PROBE_FLOORS = ["should_strip_query_item", "should_strip_fragment", "normalize_url"]
 
 OPTSETS = [("default", {}), ("quoted", {"quoted": True}), ("platform_aware", {"platform_aware": True})]
@@ -34,7 +34,8 @@ HOSTS = ["example.com", "lemonde.fr", "sub.example.co.uk", "télérama.fr", "new
 PATHS = [(None, False), ([], True), ([["a"]], False), ([["a"], ["b"]], False), ([["a"], ["b"]], True), ([["Article-1.html"]], False), ([["a b"]], False), ([["é"]], False),
          ([["%7Efoo"]], False), ([["a"], ["index2.html"]], False), ([["x.php"]], False), ([["A"], ["indexer"]], False)]
 QUERIES = [None, [(["id"], ["1"])], [(["b"], ["2"]), (["a"], ["1"])], [(["a"], ["1"]), (["a"], ["0"])], [(["q"], ["x y"])], [(["k"], None)],
-           [(["é"], ["%C3%A9"]), (["z"], [])], [(["page"], ["2"]), (["id"], ["3"]), (["lang"], ["fr"]), (["v"], ["x"])]]
+           [(["é"], ["%C3%A9"]), (["z"], [])], [(["page"], ["2"]), (["id"], ["3"]), (["lang"], ["fr"]), (["v"], ["x"])],
+           [(["t"], None), (["t"], []), (["t"], ["1"])]]  # same key without value, with an empty one and with a value: the order must still be total
 FRAGS = [None, ["top"], ["/route"], ["!/r"]]
 
 MARKERS = ["www.", "www2.", "m.", "mobile.", "amp.", "amp-", "WWW."]
@@ -70,14 +71,25 @@ def t_userinfo(c, rng):
 
 
 def t_subdomain(c, rng):
-    if not is_domain(c["host"]) or has_marker(c["host"]) or c.get("_marked"):
+    if not is_domain(c["host"]) or c.get("_marked", 0) >= 2:
         return None
     d = copy.deepcopy(c)
     mk = rng.choice(MARKERS)
+    if has_marker(c["host"]) or c.get("_marked"):
+        # composing two DIFFERENT markers is a composition of irrelevant variations, but only in the order a real host
+        # would have: a dot marker in front ('www.amp-x', 'www.m.x'); 'amp-' is by definition leading and never stacked
+        low = c["host"].lower()
+        if not mk.endswith(".") or low.startswith(mk.lower()) or mk.lower().startswith("amp") or ".m." in low or ".www." in low:
+            return None
+        first = low.split(".")[0]
+        if not (low.startswith("amp-") or first in ("www", "m", "mobile", "www2")):
+            return None
     if mk.endswith("-") and c["host"].lower().startswith("xn--"):
         return None  # 'amp-' glued on a punycode label makes a label that is no longer punycode: not a realistic host
     d["host"] = mk + c["host"]
-    d["_marked"] = True
+    d["_marked"] = c.get("_marked", 0) + 1
+    if d["_marked"] == 2:
+        d["_stacked"] = True
     return d
 
 
@@ -261,6 +273,10 @@ def account(ctx, chain):
         ctx.count("T-" + name.split(":")[0])
 
 
+STACKED = [("amp-madame.lefigaro.fr", "www.amp-madame.lefigaro.fr"), ("amp-x.example.com", "m.amp-x.example.com"), ("m.example.com", "www.m.example.com"),
+           ("mobile.example.co.uk", "www2.mobile.example.co.uk"), ("example.com", "www.m.example.com"), ("example.com", "mobile.www.example.com")]
+
+
 REDIRECTS = ["https://www.facebook.com/login/?next=https%3A%2F%2Fwww.lemonde.fr%2Fa%2F%3Futm_source%3Dx", "http://a.com/r?url=http%3A%2F%2Fwww.example.com%2Fx%2Findex.html%23top",
              "https://mashable-com.cdn.ampproject.org/c/s/mashable.com/2018/08/10/x.amp", "http://l.example.com/l.php?u=https%3A%2F%2FEXAMPLE.org%2Fp%3Fb%3D2%26a%3D1&h=AT0",
              "http://a.com/?u=/x/y/", "http://a.com/go?target=https%3A%2F%2Fb.org%2F%3Fnext%3Dhttps%253A%252F%252Fc.net%252Fz", "http://a&u=/x", "http://www.a.com/?q=http://b.org",
@@ -295,6 +311,10 @@ def run(ctx):
             ctx.nontrivial(("redirect", u))
 
         if ctx.shard == 0:
+            for a, b in STACKED:
+                for tail in ("", "/a/b?id=1", "/x/#top"):
+                    check_chain(ctx, fn, "http://" + a + tail, [("subdomain", "https://" + b + tail)])
+                    ctx.count("stacked-markers")
             for u in REDIRECTS:
                 redirect_law(u)
             ctx.sample("redirect", REDIRECTS[:3])
